@@ -21,7 +21,7 @@ ASSUMPTIONS = ["PYTHONUTF8=1 pins the default text encoding to UTF-8 (set by ./c
 FLOORS = {"cr": (0.2, None), "multi-byte": (0.25, None), "interleaved-iteration": (0.064, None), "custom-index": (0.111, None), "long-line": (0.02, None)}
 SHARDS = {"quick": 12, "thorough": 14}
 
-OPS = ["open_it", "adv", "idx", "adv", "slice", "adv", "sel", "len", "list", "open_it", "adv", "idx", "adv", "adv"]
+OPS = ["open_it", "adv", "idx", "adv", "slice", "adv", "sel", "len", "list", "open_it", "adv", "idx", "adv", "adv", "reopen", "idx"]
 
 
 def dec(c):
@@ -129,6 +129,13 @@ def run_case(case, ctx):
                     elif k == "len":
                         if len(f) != len(exp):
                             fail("len/wrong", "len changed")
+                    elif k == "reopen":
+                        # close and open the same object again: later reads must be unaffected (iterators opened before are dropped)
+                        f.close()
+                        f.open()
+                        its.clear()
+                        last_adv = None
+                        ctx.label("reopened")
                     elif k == "list":
                         g = list(f)
                         if g != exp:
